@@ -746,14 +746,12 @@ func (x *Exec) selectField(env *SpecEnv, base TV, sel string) TV {
 		}
 		idx, f := findField(u, sel)
 		if idx < 0 {
-			// promoted through embedded fields
+			// promoted through embedded fields (any depth)
 			for i := 0; i < u.NumFields(); i++ {
 				if u.Field(i).Embedded() {
-					inner := x.fieldAddr(st, v, i)
-					if _, isS := u.Field(i).Type().Underlying().(*types.Struct); isS {
-						if j, _ := findField(u.Field(i).Type().Underlying().(*types.Struct), sel); j >= 0 {
-							return x.selectField(env, TV{inner, types.NewPointer(u.Field(i).Type())}, sel)
-						}
+					if es, isS := u.Field(i).Type().Underlying().(*types.Struct); isS && hasFieldDeep(es, sel, 0) {
+						inner := x.fieldAddr(st, v, i)
+						return x.selectField(env, TV{inner, types.NewPointer(u.Field(i).Type())}, sel)
 					}
 				}
 			}
@@ -773,7 +771,7 @@ func (x *Exec) selectField(env *SpecEnv, base TV, sel string) TV {
 			for i := 0; i < v.T.NumFields(); i++ {
 				if v.T.Field(i).Embedded() {
 					if sv, ok := v.Fields[i].(*StructV); ok {
-						if j, _ := findField(sv.T, sel); j >= 0 {
+						if hasFieldDeep(sv.T, sel, 0) {
 							return x.selectField(env, TV{sv, v.T.Field(i).Type()}, sel)
 						}
 					}
@@ -1104,10 +1102,23 @@ func (x *Exec) specCall(env *SpecEnv, n *ECall) TV {
 	case "old":
 		sub := *env
 		sub.inOld = true
+		oldSt := sub.state()
+		before := oldSt.pc
 		r := x.evalSpec(&sub, n.Args[0])
 		if p, ok := r.V.(*PtrV); ok && p.LazyStruct {
 			// a struct-typed field: take its value in the old state now, not when it is used
-			return TV{x.Load(sub.state(), p), p.Elem}
+			r = TV{x.Load(sub.state(), p), p.Elem}
+		}
+		if !env.inOld && env.st != nil && oldSt != env.st {
+			// what was recorded about the entry state while evaluating (definitions of named terms,
+			// well-formedness of entry memory, axiom instances) is still true now
+			var add []*Term
+			for p := oldSt.pc; p != before && p != nil; p = p.prev {
+				add = append(add, p.t)
+			}
+			for i := len(add) - 1; i >= 0; i-- {
+				env.st.Assume(add[i])
+			}
 		}
 		return r
 	case "len":
@@ -1134,6 +1145,15 @@ func (x *Exec) specCall(env *SpecEnv, n *ECall) TV {
 			return TV{v.Cap, types.Typ[types.Int]}
 		}
 		specFail("cap of %T", a.V)
+	case "subslice": // subslice(s, lo, hi): the slice value s[lo:hi]
+		a := arg(0)
+		v, ok := a.V.(*SliceV)
+		if !ok {
+			specFail("subslice of %T", a.V)
+		}
+		lo := x.specIndexTerm(env, n.Args[1])
+		hi := x.specIndexTerm(env, n.Args[2])
+		return TV{&SliceV{v.Base, BVBin("bvadd", v.Off, lo), BVBin("bvsub", hi, lo), BVBin("bvsub", v.Cap, lo)}, a.T}
 	case "N": // unsigned value as Int
 		a := arg(0)
 		if c, ok := isConstTV(a); ok {
